@@ -20,6 +20,7 @@ pub fn run(ctx: &Ctx) -> (Report, Meta) {
     .floor("low_level_runs_checked", 100)
     .floor("hard_runs_checked", 200);
     let g = GenOpts {
+        stiff_for_implicit: true,
         allow_t_eval: true,
         allow_events: true,
         allow_terminal: true,
